@@ -1,5 +1,8 @@
 import SaModel.Read.DVal
 import SaModel.Spec.Decode
+import SaModel.Codec.Time
+import SaModel.Codec.Decimal
+import SaModel.Basic.Float
 /-
 Executable model of serde_arrow's random-access readers
 (serde_arrow/src/internal/deserialization/*.rs, internal/utils/array_view_ext.rs, utils/array_ext.rs::get_bit_buffer).
@@ -269,6 +272,55 @@ def isSome (fx : Fixes) : Arr → Nat → R Bool
     | _ => fail "Unsupported dictionary array type"
   | .union types _ _, idx => if idx ≥ types.length then fail "Access beyond bounds" else .ok true
 
+/-! #### the codecs of the temporal / decimal readers: the functions of C14 / C15 (`SaModel/Codec/*.lean`) -/
+
+def readUnit : SaModel.TimeUnit → Codec.TimeUnit
+  | .second => .second | .millisecond => .millisecond | .microsecond => .microsecond | .nanosecond => .nanosecond
+
+/-- the UTF-8 bytes of a rendered text -/
+def charsBytes (cs : List Char) : Bytes := strBytes (String.ofList cs)
+
+/-- `DateDeserializer::get_string_repr` (Date32 / Date64): fails outside chrono's date range -/
+def dateRepr (ty : PrimTy) (x : Int) : R Bytes := do
+  pure (charsBytes (← Codec.dateToString (match ty with | .date64 => .date64 | _ => .date32) x))
+
+/-- `TimeDeserializer::get_string_repr`: fails for negative values and values ≥ 24 h -/
+def timeRepr (u : SaModel.TimeUnit) (x : Int) : R Bytes := do
+  pure (charsBytes (← Codec.timeToString (readUnit u) x))
+
+/-- `is_utc_timestamp`, as stored by `TimestampDeserializer::new` -/
+def tzIsUtc (tz : Option String) : Bool :=
+  match tz with
+  | some tz => tz.toLower == "utc"
+  | none => false
+
+/-- `TimestampDeserializer::get_string_repr`: fails outside chrono's range -/
+def timestampRepr (u : SaModel.TimeUnit) (tz : Option String) (x : Int) : R Bytes := do
+  pure (charsBytes (← Codec.timestampToString (readUnit u) (tzIsUtc tz) x))
+
+/-- `format_arrow_duration_as_span` (total) -/
+def durationRepr (u : SaModel.TimeUnit) (x : Int) : Bytes := charsBytes (Codec.formatArrowDurationAsSpan x (readUnit u))
+
+/-- `DecimalDeserializer::with_value`: `format_decimal` into the 168-byte buffer.  A Decimal128 view holds `i128`
+values and an `i8` scale, where `Decimal.formatDecimal` is total (`Props.C15`, `formatDecimal_eq`; restated for this
+function as `Props.C02.decimalRepr_spec`); the empty text outside that domain is never produced by a view -/
+def decimalRepr (scale : Int) (x : Int) : Bytes :=
+  match Decimal.formatDecimal x scale with
+  | .ok b => b
+  | .error _ => []
+
+/-- `f64 as f32` on bit patterns (round to nearest even, overflow to ±inf; every NaN becomes the canonical quiet NaN —
+Rust does not specify NaN payloads of `as`, the driver compares NaNs as a class) -/
+def f64ToF32 (x : Int) : Int := Int.ofNat (Float.convert Float.f64 Float.f32 (x.toNat % 18446744073709551616))
+
+/-- string-ish reads of the temporal / decimal columns: the required value through its codec, handed over as `wrap` says -/
+def codecRead (fx : Fixes) (fmt : Int → R DVal) (v : Option Bits) (vals : List Int) (idx : Nat) : R DVal := do
+  fmt (← getRequired (primGet fx v vals idx))
+
+/-- `visit_string(repr)` / `visit_byte_buf(repr.into_bytes())` -/
+def ownedStr (r : R Bytes) : R DVal := do pure (.str .owned (← r))
+def ownedBytes (r : R Bytes) : R DVal := do pure (.bytes .owned (← r))
+
 /-! ### `deserialize_any` -/
 
 /-- what `deserialize_any_some` of a primitive column hands to the visitor -/
@@ -320,7 +372,7 @@ def readAnySome (fx : Fixes) : Arr → Nat → R DVal
   | .prim ty v vals, idx => do pure (primAny ty (← getRequired (primGet fx v vals idx)))
   | .time ty _ v vals, idx => do pure (timeAny ty (← getRequired (primGet fx v vals idx)))
   | .timestamp _ _ v vals, idx => do pure (.int .i64 (← getRequired (primGet fx v vals idx)))
-  | .decimal128 _ _ v vals, idx => do pure (.codec (← getRequired (primGet fx v vals idx)))
+  | .decimal128 _ s v vals, idx => do pure (.str .transient (decimalRepr s (← getRequired (primGet fx v vals idx))))
   | .bytes ty v offs data, idx => do
     let b ← getRequired (bytesColGet fx ty v offs data idx)
     pure (if Spec.isUtf8Ty ty then .str .borrowed b else .bytes .borrowed b)
@@ -378,10 +430,6 @@ def intoInt (ty : IntTy) (x : Int) : R DVal :=
 
 def isScalarValue (c : Nat) : Bool := c < 0xD800 || (0xE000 ≤ c && c ≤ 0x10FFFF)
 
-/-- string-ish reads of the temporal / decimal columns go through codecs modelled elsewhere (C14 / C15) -/
-def codecRead (fx : Fixes) (v : Option Bits) (vals : List Int) (idx : Nat) : R DVal := do
-  pure (.codec (← getRequired (primGet fx v vals idx)))
-
 /-- value handed to the visitor by `deserialize_<m>(visitor, idx)` -/
 def scalar (fx : Fixes) (m : Method) : Arr → Nat → R DVal
   | .null len, idx =>
@@ -399,7 +447,7 @@ def scalar (fx : Fixes) (m : Method) : Arr → Nat → R DVal
       match m with
       | .f32 => do
         let x ← getRequired (primGet fx v vals idx)
-        pure (match ty with | .float16 => .f32 (f16ToF32 x) | .float64 => .narrowed x | _ => .f32 x)
+        pure (match ty with | .float16 => .f32 (f16ToF32 x) | .float64 => .f32 (f64ToF32 x) | _ => .f32 x)
       | .f64 => do
         let x ← getRequired (primGet fx v vals idx)
         pure (match ty with | .float16 => .f64 (f32ToF64 (f16ToF32 x)) | .float32 => .f64 (f32ToF64 x) | _ => .f64 x)
@@ -408,7 +456,8 @@ def scalar (fx : Fixes) (m : Method) : Arr → Nat → R DVal
       match m with
       | .int .i32 => do intoInt .i32 (← getRequired (primGet fx v vals idx))
       | .int .i64 => do intoInt .i64 (← getRequired (primGet fx v vals idx))
-      | .str | .string | .bytes | .byteBuf => codecRead fx v vals idx
+      | .str | .string => codecRead fx (fun x => ownedStr (dateRepr ty x)) v vals idx
+      | .bytes | .byteBuf => codecRead fx (fun x => ownedBytes (dateRepr ty x)) v vals idx
       | _ => notImpl
     | _ =>
       match m with
@@ -420,23 +469,29 @@ def scalar (fx : Fixes) (m : Method) : Arr → Nat → R DVal
         else fail "out of range integral type conversion attempted"
       | .int t => do intoInt t (← getRequired (primGet fx v vals idx))
       | _ => notImpl
-  | .time ty _ v vals, idx =>
+  | .time ty u v vals, idx =>
     match ty, m with
     | .duration, .int .i64 => do pure (.int .i64 (← getRequired (primGet fx v vals idx)))
-    | .duration, .str | .duration, .string | .duration, .bytes | .duration, .byteBuf => codecRead fx v vals idx
+    | .duration, .str => codecRead fx (fun x => pure (.str .transient (durationRepr u x))) v vals idx
+    | .duration, .string => codecRead fx (fun x => pure (.str .owned (durationRepr u x))) v vals idx
+    | .duration, .bytes => codecRead fx (fun x => pure (.bytes .transient (durationRepr u x))) v vals idx
+    | .duration, .byteBuf => codecRead fx (fun x => pure (.bytes .owned (durationRepr u x))) v vals idx
     | .duration, _ => notImpl
     | _, .int .i32 => do intoInt .i32 (← getRequired (primGet fx v vals idx))
     | _, .int .i64 => do intoInt .i64 (← getRequired (primGet fx v vals idx))
-    | _, .str | _, .string | _, .bytes | _, .byteBuf => codecRead fx v vals idx
+    | _, .str | _, .string => codecRead fx (fun x => ownedStr (timeRepr u x)) v vals idx
+    | _, .bytes | _, .byteBuf => codecRead fx (fun x => ownedBytes (timeRepr u x)) v vals idx
     | _, _ => notImpl
-  | .timestamp _ _ v vals, idx =>
+  | .timestamp u tz v vals, idx =>
     match m with
     | .int .i64 => do pure (.int .i64 (← getRequired (primGet fx v vals idx)))
-    | .str | .string | .bytes | .byteBuf => codecRead fx v vals idx
+    | .str | .string => codecRead fx (fun x => ownedStr (timestampRepr u tz x)) v vals idx
+    | .bytes | .byteBuf => codecRead fx (fun x => ownedBytes (timestampRepr u tz x)) v vals idx
     | _ => notImpl
-  | .decimal128 _ _ v vals, idx =>
+  | .decimal128 _ s v vals, idx =>
     match m with
-    | .str | .string => codecRead fx v vals idx
+    | .str => codecRead fx (fun x => pure (.str .transient (decimalRepr s x))) v vals idx
+    | .string => codecRead fx (fun x => pure (.str .owned (decimalRepr s x))) v vals idx
     | _ => notImpl
   | .bytes ty v offs data, idx =>
     if Spec.isUtf8Ty ty then
@@ -482,16 +537,13 @@ def accept (t : Target) (d : DVal) : R DVal :=
   | .bool, .bool b => .ok (.bool b)
   | .int ty, .int _ v => if ty.inRange v then .ok (.int ty v) else rejected
   | .f32, .f32 x => .ok (.f32 x)
-  | .f32, .narrowed x => .ok (.narrowed x)
   | .f64, .f64 x => .ok (.f64 x)
   | .char, .char c => .ok (.char c)
   | .string, .str _ b => .ok (.str .owned b)
-  | .string, .codec v => .ok (.codec v)
   | .str, .str .borrowed b => .ok (.str .borrowed b)
   | .bytes, .bytes .borrowed b => .ok (.bytes .borrowed b)
   | .byteBuf, .bytes _ b => .ok (.bytes .owned b)
   | .byteBuf, .str _ b => .ok (.bytes .owned b)
-  | .byteBuf, .codec v => .ok (.codec v)
   | _, _ => rejected
 
 /-- the `deserialize_*` hint a scalar target calls -/
@@ -509,9 +561,22 @@ def u8As (t : Target) (b : UInt8) : R DVal :=
   | .int ty => if ty.inRange b.toNat then .ok (.int ty b.toNat) else fail "out of range integral type conversion attempted"
   | _ => fail "Unsupported: U8Deserializer does not implement this method"
 
-/-- `serde::de::value::StrDeserializer` (struct field names as map keys): everything forwards to `visit_str` -/
+/-- `visit_enum` over a string (`EnumAccess` of serde's `StrDeserializer`, and of `EnumAccess(&str)` of the string /
+dictionary readers): the identifier is `visit_str(name)`, only unit variants carry no data -/
+def strVariant : TVariants → Bytes → R DVal
+  | .nil, _ => fail "unknown variant"
+  | .cons n k rest, s =>
+    if strBytes n == s then
+      (match k with
+       | .unit => .ok (.enum (.str .transient (strBytes n)) .unit)
+       | _ => fail "invalid type: unit variant, expected a variant with data")
+    else strVariant rest s
+
+/-- `serde::de::value::StrDeserializer` (struct field names as map keys): `deserialize_enum` is `visit_enum`, everything
+else forwards to `visit_str` -/
 def strDeAs (t : Target) (name : String) : R DVal :=
   match t with
+  | .enum byIndex vs => if byIndex then rejected else strVariant vs (strBytes name)
   | .any => .ok (.str .transient (strBytes name))
   | .ignored => .ok .ignored
   | .string => .ok (.str .owned (strBytes name))
@@ -538,6 +603,11 @@ def stringElem (fx : Fixes) : Arr → Nat → Option (R Bytes)
     if isUtf8View ty then some (getRequired (viewColGet fx ty v views buffers idx)) else none
   | .dictionary ks vs, idx => some (dictGetStr fx ks vs idx)
   | _, _ => none
+
+/-- the byte a `ByteBuf` takes from a list element read as `u8` -/
+def byteOfD : DVal → UInt8
+  | .int _ v => UInt8.ofNat v.toNat
+  | _ => 0
 
 /-- `StructDeserializer::item`: the row check of the typed struct reads (absent on the pinned tree) -/
 def structItem (fx : Fixes) (len idx : Nat) : R Unit :=
@@ -613,7 +683,7 @@ def readAs (fx : Fixes) : Target → Arr → Nat → R DVal
     | .list _ _ offs _ el => do
       let (s, e) ← listRange fx offs idx
       let xs ← readRange (fun j => do accept (.int .u8) (← scalar fx (.int .u8) el j)) s (e - s)
-      pure (.bytes .owned (xs.map fun d => match d with | .int _ v => UInt8.ofNat v.toNat | _ => 0))
+      pure (.bytes .owned (xs.map byteOfD))
     | _ => do accept .byteBuf (← scalar fx .byteBuf a idx)
   | .option t, a, idx => do
     if (← isSome fx a idx) then pure (.some (← readAs fx t a idx)) else pure .none
